@@ -28,7 +28,25 @@ def _value(spec):
         return range(spec[1])
     if k == 'array':
         return np.array(spec[1])
+    if k == 'array0':
+        return np.array(spec[1])          # 0-d array: has __iter__ but is not iterable -> a single value
+    if k == 'oldseq':
+        return _OldSeq(spec[1])           # iterable through __getitem__/__len__ only
     raise ValueError(spec)
+
+
+class _OldSeq:
+    def __init__(self, xs):
+        self.xs = list(xs)
+
+    def __getitem__(self, i):
+        return self.xs[i]
+
+    def __len__(self):
+        return len(self.xs)
+
+    def __eq__(self, other):
+        return isinstance(other, _OldSeq) and self.xs == other.xs
 
 
 def _items(v):
@@ -92,13 +110,16 @@ class BM:
     """Picklable model factory (module level, so that worker processes can import it)."""
     _cls = None
 
-    def __new__(cls, a=0, b=0, stop=3, fail=False, seed=None):
+    def __new__(cls, a=0, b=0, stop=3, fail=False, seed=None, burn=0):
         Model, Rec, Stopper = _model_classes()
 
         class _M(Model):
             pass
         m = _M(seed)
-        return _build(m, a, b, stop, fail, Rec, Stopper)
+        m = _build(m, a, b, stop, fail, Rec, Stopper)
+        for _ in range(burn):          # a model that warms up inside its constructor: its clock does not start at 0
+            m.execute()
+        return m
 
 
 def _build(m, a, b, stop, fail, Rec, Stopper):
@@ -245,6 +266,8 @@ def _run_history(case, props=None):
                 break
     elif kind == 'batch':
         _, grid, reps, max_t, collectors, procs, fail_at = case
+        grid = {n: (_value((v[0][1:], v[1])) if isinstance(v, list) and v and isinstance(v[0], str) and v[0].startswith('$')
+                    else v) for n, v in grid.items()}
         decl = list(grid.items())
         combos = expected_product(decl)
         runs = combos * reps
@@ -257,8 +280,8 @@ def _run_history(case, props=None):
         for c in runs:
             d = dict(c)
             stop = d.get('stop', 3)
-            steps = min(stop, max_t) if True else 0
-            recs = [(d.get('a', 0), d.get('b', 0), t) for t in range(min(stop, max_t))]
+            burn = min(d.get('burn', 0), stop)
+            recs = [(d.get('a', 0), d.get('b', 0), t) for t in range(min(stop, max(max_t, burn)))]
             if collectors == 'rec':
                 exp.append(recs)
             elif collectors is None:
@@ -325,19 +348,20 @@ def _run_history(case, props=None):
             if out:
                 break
     elif kind == 'search':
-        _, grid, reps, mode, procs, sname = case
-        out += _search(B, {n: v for n, v in grid.items()}, list(grid.items()), reps, mode, procs, sname)
+        _, grid, reps, mode, procs, sname = case[:6]
+        out += _search(B, {n: v for n, v in grid.items()}, list(grid.items()), reps, mode, procs, sname,
+                       max_t=case[6] if len(case) > 6 else 50)
     return out
 
 
-def _search(B, gridarg, decl, reps, mode, procs, sname):
+def _search(B, gridarg, decl, reps, mode, procs, sname, max_t=50):
     import statistics
     out = []
     if True:
         score = SCORES[sname]
         combos = expected_product(decl)
         try:
-            best, results = B.grid_search(BM, gridarg, score, processes=procs, max_timesteps=50,
+            best, results = B.grid_search(BM, gridarg, score, processes=procs, max_timesteps=max_t,
                                           repetitions=reps, mode=B.ScoreMode(mode))
         except Exception as ex:
             return [('C16', f'grid_search raised {type(ex).__name__}: {ex}')]
@@ -351,7 +375,7 @@ def _search(B, gridarg, decl, reps, mode, procs, sname):
             scores = []
             for _ in range(reps):
                 m = BM(**d)
-                while m.is_running() and m.systems.timestep < 50:
+                while m.is_running() and m.systems.timestep < max_t:
                     m.execute()
                 scores.append(score(m))
             for n, v in c:
@@ -392,8 +416,11 @@ def _rand_spec(rng):
         return ('tuple', [rng.randint(0, 3) for _ in range(rng.randint(0, 3))])
     if r < 0.8:
         return ('range', rng.randint(0, 3))
-    if r < 0.92:
+    if r < 0.88:
         return ('array', [rng.randint(0, 9) for _ in range(rng.randint(1, 3))])
+    if r < 0.92:
+        return rng.choice([('array0', rng.randint(0, 9)), ('oldseq', [rng.randint(0, 3) for _ in range(rng.randint(0, 3))]),
+                           ('list', [[1], [2, 3]]), ('list', [2, 2.0, True])])
     return ('none',)
 
 
@@ -401,7 +428,7 @@ def histories(seed, budget, prop='C14'):
     rng = random.Random(seed)
     if prop == 'C14':
         specs = [('int', 4), ('str', 'ab'), ('list', [1, 2]), ('list', []), ('list', [7]), ('tuple', [1, 1]), ('range', 3),
-                 ('array', [5, 6]), ('none',)]
+                 ('array', [5, 6]), ('none',), ('array0', 7), ('oldseq', [3, 4]), ('list', [[1, 2], [3]]), ('list', [1, True, 1.0])]
         yield ('plist', [('new', None), ('build',), ('add', 'x', ('list', [1, 2, 3])), ('build',), ('add', 'y', ('str', 'ab')),
                          ('build',), ('add', 'x', ('list', [9])), ('build',), ('add', 3, ('int', 1)), ('remove', 'q'),
                          ('build',), ('remove', 'x'), ('build',), ('add', 'x', ('int', 0)), ('build',)])
@@ -423,7 +450,9 @@ def histories(seed, budget, prop='C14'):
             yield ('plist', ops)
     elif prop == 'C15':
         grids = [{'a': [1, 2], 'b': [0, 1]}, {'a': [1, 2, 3]}, {'a': 4}, {'a': [1, 2], 'stop': [1, 4]}, {},
-                 {'a': [1, 1, 2], 'b': [True, 1.0]}, {'a': [[1, 2], [3, 4], [0, 0]], 'b': [0, 1]}]
+                 {'a': [1, 1, 2], 'b': [True, 1.0]}, {'a': [[1, 2], [3, 4], [0, 0]], 'b': [0, 1]},
+                 {'a': [1, 2], 'burn': [2], 'stop': [5]}, {'a': ['$array0', 7], 'b': [0, 1]},
+                 {'a': ['$oldseq', [3, 4, 5]], 'b': [1]}]
         for g in grids:
             for reps in (1, 2):
                 for max_t in (0, 1, 2, 3, 6):
@@ -455,6 +484,10 @@ def histories(seed, budget, prop='C14'):
                    1, mode, 1, 'sum')
             yield ('search_pl', {'a': [1, 2]}, [('add', 'b', [0, 1, 2]), ('remove', 'a'), ('add', 'a', [5, 0])],
                    2, mode, 1, 'work')
+        for mode in (0, 1, 3, 5):
+            # a step limit that binds, several repetitions: every repetition gets the whole limit
+            yield ('search', {'a': [1, 2], 'stop': [6, 9]}, 3, mode, 1, 'work', 2)
+            yield ('search', {'a': [2, 1], 'stop': [7]}, 2, mode, 2, 'work', 4)
         for mode in (0, 1, 3):
             yield ('search', grids[1], 2, mode, 2, 'sum')
             yield ('search', grids[0], 1, mode, 2, 'big')
